@@ -174,7 +174,7 @@ func genCluster(c *Ctx) error {
 							do(fmt.Sprintf("hist %s %s", pos, p.refImageDigest()))
 						}
 					}
-				} else if nodes[k].net && pos != ppos {
+				} else if nodes[k].net && pos != ppos && ppos != "" && !strings.HasPrefix(ppos, "0:") {
 					c.Fail(fmt.Sprintf("history %d %s: connected node %d at %s, primary at %s", h, what, k, pos, ppos))
 				}
 				if e, ok := hist[pos]; ok {
